@@ -265,6 +265,9 @@ def run(chk: Check) -> None:
                         misses.append(("ctx", f"{rverb} --- {dst} {reply[17:26]} --:------ {code} {len(oz) // 2:03d} {oz}"))
             osrc = "01:999999" if dst != "01:999999" else "01:888888"
             misses.append(("src", reply[:7] + osrc[:2].replace("01", dst[:2]) + osrc[2:] + reply[16:]))
+            if code == "0418" and verb == "RQ":
+                # the null entry (any index reads so beyond the end of the log) - from another device
+                misses.append(("src", f"RP --- {osrc[:2].replace('01', dst[:2]) + osrc[2:]} {reply[17:26]} --:------ 0418 022 {NULL_0418}"))
             overb = " I" if rverb == "RP" else "RP"
             misses.append(("verb", overb + reply[2:]))
             ocode = rnd.choice([c for c, v, _ in pairs if v == rverb and c != code])
